@@ -58,6 +58,8 @@ def run(chk: Check, proj: Project) -> None:
     _m9, _f9 = proj.func("util.template_parser", "parse_template")
     chk.borrow("S12", "tokens of a stock template keep Django's line numbers and positions (error messages and the debug page quote them): relexed segments are shifted by the segment origin and an ASSIGNED absolute line offset (shared with C09-S1..S3)",
                lambda sub: C09.s1_s3(sub, proj, _m9, _f9))
+    chk.borrow("S14", "a stock template that takes the quote-aware path (any tag with a quote in it) is lexed as Django lexes it: the decisions re-implemented from Lexer.create_token - when a verbatim block starts, which tag ends it ('end' + the whole contents of the start tag), how contents are stripped - are Django's own, compared with the installed source (shared with C09-S10)",
+               lambda sub: C09.s10_same_as_django(sub, proj, _m9, _f9))
     from . import C18 as _C18
 
     chk.borrow("S13", "a component's template is compiled with ITS OWN name and origin: the template cache key covers every input of the compilation - `origin.template_name` is what Django resolves a relative {% extends './base.html' %} / {% include './row.html' %} against, so two components with byte-identical template files in different directories must not share one compiled Template (shared with C18-S4)",
